@@ -681,3 +681,37 @@ Proof.
   destruct (par_map_eq_seq_lem f i0 nw2 items sched2 H2) as (_ & E2).
   fold s1 in E1. fold s2 in E2. rewrite E1, E2. reflexivity.
 Qed.
+
+(* ------------------------------------------------------------------------------------------------
+   The index operator as an evaluation context: `list[i]` on a lazy list evaluates the list's stages (their closure
+   calls) on a stack.  fresh = true: the stack is created by the access (value.go AccessList), so every access - by a
+   worker of a parallel stage, or nested inside another access - is an agent on a storage of its own.
+   fresh = false: one generator-wide stack; every access starts at offs 0, size 0 of the same storage. *)
+Definition index_access_sys (fresh : bool) (progs : nat -> list (op (V := nat))) : sys (V := nat) :=
+  mkSys (fun _ => []) (fun i => mkAgent (if fresh then i else 0) 0 0 (progs i) [] false).
+
+Lemma index_access_private_lem : forall limit progs sched,
+  (forall i, wf_prog 0 (progs i) /\ npush (progs i) <= S limit) ->
+  forall i, story (SharedStack.run limit (index_access_sys true progs) sched) i = story (index_access_sys true progs) i
+            /\ panicked (agents (SharedStack.run limit (index_access_sys true progs) sched) i) = false.
+Proof.
+  intros limit progs sched Hwf. apply private_noninterference.
+  - intro i. destruct (Hwf i) as (H1 & H2). unfold wf_agent. cbn. repeat split; auto; lia.
+  - intros i j Hij. cbn. exact Hij.
+Qed.
+
+(* the outer access (agent 0: number pushes i=7, x=8 and calls its closure) is re-entered by an inner access (agent 1,
+   pushes 1, 4 and calls) before its callee reads its arguments: strictly sequential, one goroutine *)
+Lemma index_access_shared_witness :
+  let progs := fun i => match i with 0 => [OPush 7; OPush 8; OCall 2] | 1 => [OPush 1; OPush 4; OCall 2] | _ => [] end in
+  seen (agents (SharedStack.run 100 (index_access_sys false progs) [0; 0; 1; 1; 1; 0]) 0) = [[1; 4]]
+  /\ story (index_access_sys false progs) 0 = [[7; 8]]
+  /\ seen (agents (SharedStack.run 100 (index_access_sys true progs) [0; 0; 1; 1; 1; 0]) 0) = [[7; 8]].
+Proof. vm_compute. repeat split. Qed.
+
+Lemma index_access_shared_refuted_lem :
+  exists progs sched, seen (agents (SharedStack.run 100 (index_access_sys false progs) sched) 0) <> story (index_access_sys false progs) 0.
+Proof.
+  exists (fun i => match i with 0 => [OPush 7; OPush 8; OCall 2] | 1 => [OPush 1; OPush 4; OCall 2] | _ => [] end), [0; 0; 1; 1; 1; 0].
+  destruct index_access_shared_witness as (H1 & H2 & _). rewrite H1, H2. discriminate.
+Qed.
